@@ -1,6 +1,6 @@
 //go:build verif
 
-package rsa
+package rsa_test
 
 // C17, failed decodes in a history: a live KeyShare / SignShare that receives an UnmarshalBinary call
 // which returns an error is kept by its owner and used again. "The partial signatures of any k or more
@@ -8,6 +8,7 @@ package rsa
 // a refused input may not leave a half-written share behind. When the call returns nil the receiver
 // must be exactly what a fresh value decodes to (the histories of successful loads are rsa_roundtrip).
 //
+// Exported API only (live values are copied through their own valid encodings).
 // Exhaustive over every prefix length of every player's encoding (cached and uncached form), plus
 // single-field edits, against every player's live share in three states.
 
@@ -15,25 +16,13 @@ import (
 	"bytes"
 	"encoding/binary"
 	"fmt"
-	"math/big"
 	"testing"
 
 	"crypto/rsa"
 
 	"github.com/cloudflare/circl/internal/verifmc"
+	tss "github.com/cloudflare/circl/tss/rsa"
 )
-
-func c17CloneKS(k *KeyShare) *KeyShare {
-	c := &KeyShare{Index: k.Index, Players: k.Players, Threshold: k.Threshold, si: new(big.Int).Set(k.si)}
-	if k.twoDeltaSi != nil {
-		c.twoDeltaSi = new(big.Int).Set(k.twoDeltaSi)
-	}
-	return c
-}
-
-func c17CloneSS(s *SignShare) *SignShare {
-	return &SignShare{Index: s.Index, Players: s.Players, Threshold: s.Threshold, xi: new(big.Int).Set(s.xi)}
-}
 
 type c17Input struct {
 	name  string
@@ -108,9 +97,9 @@ func TestVerifC17_rsa_faileddecode(t *testing.T) {
 	keys := map[string]*rsa.PrivateKey{"rsa_1024": c17LoadKey(t, "rsa_1024"), "rsa_1025": c17LoadKey(t, "rsa_1025")}
 	type job struct {
 		d      *c17RT
-		live   [3][]*KeyShare // per state, per player
-		others []SignShare    // honest partial signatures of all players
-		owner  int            // 1-based
+		live   [3][]*tss.KeyShare // per state, per player
+		others []tss.SignShare    // honest partial signatures of all players
+		owner  int                // 1-based
 		state  int
 		ss     bool // SignShare receiver instead of KeyShare
 	}
@@ -120,27 +109,34 @@ func TestVerifC17_rsa_faileddecode(t *testing.T) {
 		d := c17RTDeal(t, c.key, keys[c.key], c.l, c.k, c17ModeA)
 		pub := &d.key.PublicKey
 		label := "c17-rt-deal/" + d.tag
-		ksU, err := Deal(verifmc.NewDetReader(label), uint(c.l), uint(c.k), d.key, false)
+		ksU, err := tss.Deal(verifmc.NewDetReader(label), uint(c.l), uint(c.k), d.key, false)
 		if err != nil {
 			t.Fatalf("harness: Deal: %v", err)
 		}
-		ksD, err := Deal(verifmc.NewDetReader(label), uint(c.l), uint(c.k), d.key, true)
+		ksD, err := tss.Deal(verifmc.NewDetReader(label), uint(c.l), uint(c.k), d.key, true)
 		if err != nil {
 			t.Fatalf("harness: Deal: %v", err)
 		}
 		base := job{d: d}
+		mustClone := func(k *tss.KeyShare) *tss.KeyShare {
+			c, err := c17CloneKS(k)
+			if err != nil {
+				t.Fatalf("harness: cannot copy a key share through its encoding: %v", err)
+			}
+			return c
+		}
 		for i := range ksU {
-			if ksU[i].si.Cmp(d.si[i]) != 0 {
+			if si := c17KeyShareSecret(&ksU[i]); si == nil || si.Cmp(d.si[i]) != 0 {
 				t.Fatalf("harness: Deal is not reproducible from the same reader")
 			}
-			signed := c17CloneKS(&ksU[i])
+			signed := mustClone(&ksU[i])
 			s, err := signed.Sign(nil, pub, d.padded, false)
-			if err != nil || signed.twoDeltaSi == nil {
+			if err != nil {
 				t.Fatalf("harness: Sign: %v", err)
 			}
-			base.live[0] = append(base.live[0], c17CloneKS(&ksU[i]))
+			base.live[0] = append(base.live[0], mustClone(&ksU[i]))
 			base.live[1] = append(base.live[1], signed)
-			base.live[2] = append(base.live[2], c17CloneKS(&ksD[i]))
+			base.live[2] = append(base.live[2], mustClone(&ksD[i]))
 			base.others = append(base.others, s)
 		}
 		for owner := 1; owner <= c.l; owner++ {
@@ -157,14 +153,18 @@ func TestVerifC17_rsa_faileddecode(t *testing.T) {
 	r.Set("owner_states", len(jobs))
 
 	// combineWith: the owner's partial signature with the next k-1 players' honest ones.
-	combineWith := func(d *c17RT, others []SignShare, owner int, mine SignShare) error {
-		shares := []SignShare{mine}
+	combineWith := func(d *c17RT, others []tss.SignShare, owner int, mine tss.SignShare) error {
+		shares := []tss.SignShare{mine}
 		for x := 1; len(shares) < d.k; x++ {
-			shares = append(shares, *c17CloneSS(&others[(owner-1+x)%d.l]))
+			o, err := c17CloneSS(&others[(owner-1+x)%d.l])
+			if err != nil {
+				return fmt.Errorf("an honest sign share does not survive its own encoding: %v", err)
+			}
+			shares = append(shares, *o)
 		}
-		var sig Signature
+		var sig tss.Signature
 		var err error
-		if p, what := verifmc.Try(func() { sig, err = CombineSignShares(&d.key.PublicKey, shares, d.padded) }); p {
+		if p, what := verifmc.Try(func() { sig, err = tss.CombineSignShares(&d.key.PublicKey, shares, d.padded) }); p {
 			return fmt.Errorf("CombineSignShares panicked: %s", what)
 		}
 		if err != nil {
@@ -222,25 +222,29 @@ func TestVerifC17_rsa_faileddecode(t *testing.T) {
 			r.Transition(1)
 			r.Distinct(caseID)
 			var before, after, freshBytes []byte
-			var derr, ferr error
-			var ks *KeyShare
-			var ssv *SignShare
+			var derr, ferr, cloneErr error
+			var ks *tss.KeyShare
+			var ssv *tss.SignShare
 			if p, pw := verifmc.Try(func() {
 				if j.ss {
-					ssv = c17CloneSS(&j.others[j.owner-1])
+					if ssv, cloneErr = c17CloneSS(&j.others[j.owner-1]); cloneErr != nil {
+						return
+					}
 					before, _ = ssv.MarshalBinary()
 					derr = ssv.UnmarshalBinary(in.data)
 					after, _ = ssv.MarshalBinary()
-					var f SignShare
+					var f tss.SignShare
 					if ferr = f.UnmarshalBinary(in.data); ferr == nil {
 						freshBytes, _ = f.MarshalBinary()
 					}
 				} else {
-					ks = c17CloneKS(j.live[j.state][j.owner-1])
+					if ks, cloneErr = c17CloneKS(j.live[j.state][j.owner-1]); cloneErr != nil {
+						return
+					}
 					before, _ = ks.MarshalBinary()
 					derr = ks.UnmarshalBinary(in.data)
 					after, _ = ks.MarshalBinary()
-					var f KeyShare
+					var f tss.KeyShare
 					if ferr = f.UnmarshalBinary(in.data); ferr == nil {
 						freshBytes, _ = f.MarshalBinary()
 					}
@@ -248,6 +252,10 @@ func TestVerifC17_rsa_faileddecode(t *testing.T) {
 			}); p {
 				r.Outcome("decode:panic")
 				ov.Add(rank, "C17|tss/rsa."+what+".UnmarshalBinary|panic:"+verifmc.PanicClass(pw), caseID, caseID+": panic: "+pw, replay)
+				continue
+			}
+			if cloneErr != nil {
+				ov.Add(rank, "C17|tss/rsa."+what+".UnmarshalBinary|valid-encoding-refused", caseID, caseID+": the live value cannot be copied through its own encoding: "+cloneErr.Error(), replay)
 				continue
 			}
 			if (derr == nil) != (ferr == nil) {
@@ -279,7 +287,7 @@ func TestVerifC17_rsa_faileddecode(t *testing.T) {
 				continue
 			}
 			// the owner goes on using its share
-			var mine SignShare
+			var mine tss.SignShare
 			if j.ss {
 				mine = *ssv
 			} else {
